@@ -80,6 +80,14 @@ CHECKS = {
          "(Variable, CounterfactualVariable, Distribution, Probability/PopulationProbability, QFactor) and the probability builders are covered by (3) only.",
          TRUST + "; Python's expression grammar is an operator-precedence grammar; variable names are those parse_y0 predefines (A-Z, A0-Z9, Pi, ...), as in the property's 'built through the public DSL'",
          "contract-based proof of the operators + exhaustive printer/parser check over syntactic classes (CPython's parser as oracle) + bounded round trips", "DESIGN.md §5 C12"),
+ "C20": ("other", "Proved for all graphs (cyclic or not), node triples, conditioning sets and sigma maps, in the exact theory of relations: each per-triple predicate "
+         "(is_collider, the two chains, the fork) equals its definition -- a collider is open iff one of its descendants is conditioned on; a non-collider with a directed edge out "
+         "of the middle node is blocked only when the middle node is conditioned on and lies outside the sigma class of the child -- the combined triple test is mirror symmetric "
+         "(helper(l,m,r) = helper(r,m,l): the step from which symmetry of the verdict follows), and get_equivalence_classes returns exactly the strongly connected components "
+         "(singletons on acyclic graphs). The path enumeration (networkx.all_simple_paths, more_itertools.triplewise, the one-step backtracking) is outside the subset; symmetry, the "
+         "adjacency rule and agreement with d-separation on acyclic graphs are decided end to end by the labelled bounded stand-in: every directed mixed graph with 2-3 nodes x every "
+         "query and sampled 4-5 node graphs against networkx d-separation on the canonical DAG.",
+         TRUST, TECH + " (triple predicates, sigma classes) + bounded end-to-end check against an oracle", "DESIGN.md §5 C20"),
 }
 NA = {
 }
